@@ -58,8 +58,10 @@ fn gen_knobs(r: &mut Rng, code: &[u8]) -> Knobs {
             4..=6 => 30_000_000,
             _ => r.log_range(200, 30_000_000) as usize,
         },
-        max_iterations:   r.range(1, 12) as usize,
-        max_forks:        r.range(1, 60) as usize,
+        // the smallest limits often: off-by-one and bookkeeping slips show
+        // at 1 and 2
+        max_iterations:   if r.chance(1, 3) { r.range(1, 2) as usize } else { r.range(1, 12) as usize },
+        max_forks:        if r.chance(1, 3) { r.range(1, 2) as usize } else { r.range(1, 60) as usize },
         value_size_limit: *r.pick(&[10usize, 50, 250, 250, 1000]),
         mem_op_limit:     *r.pick(&[32usize, 394, 4096]),
         permissive:       r.chance(1, 2),
@@ -110,6 +112,14 @@ pub fn oracles(sc: &Scenario, out: &Outcome) -> Option<(String, Value)> {
         return Some((
             format!("fork-limit-exceeded:by-{}", vm.max_fork - k.max_forks),
             json!({"max_fork_count": vm.max_fork, "limit": k.max_forks, "offset": vm.max_fork_at}),
+        ));
+    }
+    // 2b. the same, counted from the fork points of the stored states rather
+    //     than read from the VM's own counter
+    if vm.max_forks_seen > k.max_forks {
+        return Some((
+            format!("fork-limit-exceeded:by-{}:counted-from-states", vm.max_forks_seen - k.max_forks),
+            json!({"forks_to_target": vm.max_forks_seen, "limit": k.max_forks, "target": vm.max_forks_seen_at, "vm_counter_says": vm.max_fork}),
         ));
     }
     // 3. threads ever created
